@@ -69,6 +69,15 @@ def build_files(ctx, d):
     with open(os.path.join(d, 'xgettext-template.pot'), 'w', encoding='utf-8') as f:
         f.write(pogen.render(pot))
     files.append('xgettext-template.pot')
+    # the same escaped bytes under different declared charsets: decoding must not carry state from one file to the next
+    for cs in ('ISO-8859-1', 'ISO-8859-2', 'KOI8-R', 'UTF-8'):
+        esc = '\\xe6\\xf1' if cs != 'UTF-8' else '\\xc3\\xa6'
+        text = ('msgid ""\nmsgstr ""\n"Content-Type: text/plain; charset=%s\\n"\n"Language: pl\\n"\n\n'
+                'msgid "%s fox\\n"\nmsgstr "%s lis"\n\nmsgid "%s"\nmsgstr "\\303\\251%s"\n') % (cs, esc, esc, 'caf' + esc, esc)
+        name = 'escaped-%s.po' % cs.lower()
+        with open(os.path.join(d, name), 'w', encoding='ascii') as f:
+            f.write(text)
+        files.append(name)
     for i in range(8 if ctx.quick() else 60):
         cat, _ = pogen.hostile_catalog(rng, nslots=3)
         name = 'gen%d.%s' % (i, rng.choice(['po', 'pot']))
@@ -116,6 +125,9 @@ def check(ctx):
         for f in rng.sample(files, 6 if ctx.quick() else 30) + ['brace-types.po', 'xgettext-template.pot']:
             configs.append(('history %s before probe %s' % (f, pr[0]), [f] + pr, 3, []))
             configs.append(('history %s after probe %s' % (f, pr[0]), pr + [f], 0, []))
+    esc_files = [f for f in files if f.startswith('escaped-')]
+    for k in range(len(esc_files)):
+        configs.append(('escaped-bytes files rotated by %d' % k, esc_files[k:] + esc_files[:k], 0, []))
     configs.append(('-l pl, seeds differ', None, None, None))   # handled below
 
     def run_cfg(cfg):
